@@ -27,9 +27,12 @@ def curve(name):
 
 class Live:
     """A real mesh together with its model and the float grids it was built from."""
-    def __init__(self, spec):
+    def __init__(self, spec, min_hx=None):
+        """min_hx: space bisections that would create an element narrower than this are skipped by apply_op (used by
+        the checks of the integral operators, whose interval rules assert panel widths > 1e-5 / 1e-7)"""
         from src.mesh import Mesh, MeshParametrized
         self.spec = spec
+        self.min_hx = min_hx
         self.ts = [float(t) for t in spec['ts']]
         form = {'list': list, 'tuple': tuple, 'array': lambda v: np.array(v, dtype=float)}[spec.get('grid_form', 'list')]
         with repo.quiet():
@@ -168,6 +171,8 @@ def apply_op(live, op, cap=400):
         if kind in ('t', 'x'):
             ax = 0 if kind == 't' else 1
             e = select(live, op[1])
+            if ax == 1 and live.min_hx and (e.space_interval[1] - e.space_interval[0]) / 2 < live.min_hx:
+                return {'op': op, 'mode': 'skipped'}
             key = live.skey(e).key
             _, forced = model.refine(key, ax)
             info['forced'] = len(forced)
@@ -175,6 +180,8 @@ def apply_op(live, op, cap=400):
             mesh.refine_axis(e, ax)
         elif kind == 'tx':
             e = select(live, op[1])
+            if live.min_hx and (e.space_interval[1] - e.space_interval[0]) / 2 < live.min_hx:
+                return {'op': op, 'mode': 'skipped'}
             key = live.skey(e).key
             ch, f1 = model.refine(key, 0)
             forced = len(f1)
